@@ -12,13 +12,13 @@ def race_step(chk, ok_c):
     A race report, a deadlock timeout or a crash is a classed oracle failure with the report as the case."""
     exe = os.path.join(chk.bdir, 'c06.race')
     rc, out = vlib.sh(['go', 'build', '-race', '-tags', 'verif', '-o', exe, './cmd/c06'], cwd=vlib.HARNESS,
-                      timeout=900, env={'CGO_ENABLED': '1'})
+                      timeout=1800, env={'CGO_ENABLED': '1'})
     if rc != 0:
         chk.log('race build failed:\n' + out[-1500:])
         chk.broken.append('harness cmd/c06 does not build with -race against the current tree: ' + out.strip()[-300:])
         return
     args = [str(a) for a in RACE_ARGS[chk.tier]] + ['-cases', os.path.join(chk.bdir, 'cases_race')]
-    tmo = 600 if chk.tier == 'quick' else 3000
+    tmo = 1800 if chk.tier == 'quick' else 5400
     rc, out = vlib.sh([exe] + args, timeout=tmo, cwd=chk.bdir,
                       env={'VERIF_SEED': str(chk.seed + 7), 'VERIF_TIER': chk.tier, 'CGO_ENABLED': '1',
                            'GORACE': 'halt_on_error=0 exitcode=0 history_size=3'})
